@@ -38,6 +38,22 @@ STRICT = [
 ]
 
 
+def wrap_deep(rng, inner, depth):
+    """nest `inner` (an expression text) inside containers built in different ways, so that the
+    intermediate containers are already strict while the innermost element is still delayed"""
+    e = inner
+    for _ in range(depth):
+        k = rng.randrange(7)
+        if k == 0: e = f"({e}) ㄴ ㅁㄹㅎㄷ"                          # list element (delayed)
+        elif k == 1: e = f"ㄷ ({e}) ㄷㅂㅎㄷ"                         # exception contents (forced one level by ㄷㅂ)
+        elif k == 2: e = f"ㄴ ({e}) ㅅㅈㅎㄷ"                         # dictionary value
+        elif k == 3: e = f"(({e}) ㄴ ㅁㄹㅎㄷ) ㅁㄹ ㅁㄷㅎㄷ"           # map(ㅁㄹ, [e, 1]) = [[e], [1]]: strict inner lists
+        elif k == 4: e = f"(({e}) ㅁㄹㅎㄴ) (ㄴ ㅁㄹㅎㄴ) ㄷㅎㄷ"        # concatenation result
+        elif k == 5: e = f"(({e}) ㅁㄹㅎㄴ) ㄱ ㅂㅈㅎㄷ"               # slice result
+        else: e = f"(({e}) ㅁㄹㅎㄴ) ㄷㅂㅎㄴ"                        # exception holding a list holding the element
+    return e
+
+
 def cases(rng, tier):
     rounds = 4 if tier == 'quick' else 150
     g = gen.Gen(rng, max_depth=3)
@@ -51,6 +67,15 @@ def cases(rng, tier):
             yield Case(program=prog, tag='uncaught:' + name, stdin="x\n")
             # (b) caught by ㅅㄷ with the identity handler ≡ the exception value itself, contents intact
             yield Case(program=f"({prog}) (ㄱㅇㄱ ㅎ) ㅅㄷㅎㄷ", variants=(exc,), tag='caught:' + name, stdin="x\n")
+        # "fully evaluated": a fault buried in nested list / dictionary / exception contents, however the
+        # containers were built, is raised inside the ㅅㄷ and reaches its handler
+        for _ in range(25 if tier == 'quick' else 60):
+            pl = payload(rng, g)
+            exc = render(bi('ㄷㅂ', *pl))
+            body = wrap_deep(rng, f"{exc} ㄷㅈㅎㄴ", rng.randint(1, 4))
+            yield Case(program=f"({body}) (ㄱㅇㄱ ㅎ) ㅅㄷㅎㄷ", variants=(exc,), tag='deep-force', stdin="x\n")
+            yield Case(program=f"({body}) ㄱㅅㅎㄴ", tag='deep-return', stdin="x\n")
+            yield Case(program=body, tag='deep-uncaught', stdin="x\n")
         # built-in failures: contents begin [5, class]
         for prog in ["ㄴ ㄱ ㄴㄴㅎㄷ", "ㄴ ㅁㅈㅎㄱ ㄷㅎㄷ", "ㄹ ㅇㄱ", "ㅈㅈㅈㅈㅈ ㅎㄱ", "ㄱ ㄴ ㅁㄹㅎㄷ ㄷ ㅎㄴ".replace("ㄱ ㄴ ㅁㄹㅎㄷ ㄷ ㅎㄴ", "ㄷ (ㄱ ㄴ ㅁㄹㅎㄷ) ㅎㄴ"),
                      "ㄴ (ㅅㅈㅎㄱ) ㅎㄴ", "ㅁㅈㅎㄱ ㅈㅅㅎㄴ", "ㄴ ㄷ ㄱ ㅅㅎㄹ"]:
@@ -73,7 +98,7 @@ SPEC = {
     'lean': ['C10'],
     'cases': cases,
     'stream': 'C10 planted-fault stream',
-    'rule': '52 strict operand positions (every built-in family, callables, argument position, callee, I/O constructors, '
+    'rule': 'faults buried 1–4 levels deep in containers built by ㅁㄹ / ㄷㅂ / ㅅㅈ / ㅁㄷ / ㄷ / ㅂㅈ (so that intermediate containers are already strict) must be raised inside ㅅㄷ / ㄱㅅ; 52 strict operand positions (every built-in family, callables, argument position, callee, I/O constructors, '
             'module functions, nested / closure / returned-closure contexts) × random nested exception payloads: the '
             'uncaught program must end in exactly that exception (contents + location, vs the model); wrapped in ㅅㄷ with '
             'the identity handler it must equal the exception value built directly; built-in failures caught and indexed at '
